@@ -88,6 +88,18 @@ def mutants_of(d, counter):
         m.cparams[0] = (n, ct, (0 if cv else 1) if ct == "bool" else (cv + 1 if ct != "char" else 0x42 if cv != 0x42 else 0x43))
         m.const_only = True
         out.append(m)
+        n0, ct0, cv0 = d.cparams[0]
+        if ct0 in INTS and INTS[ct0] >= 2:
+            # a value that differs only in its top bit (a truncated hash of the value would not see it)
+            m = new("const-value-high")
+            half = 1 << (8 * INTS[ct0] - 1)
+            if ct0.startswith("u"):
+                nv = cv0 ^ half
+            else:
+                nv = cv0 - half if cv0 >= 0 else cv0 + half
+            m.cparams[0] = (n0, ct0, nv)
+            m.const_only = True
+            out.append(m)
         m = new("const-name")
         n, ct, cv = m.cparams[0]
         m.cparams[0] = (n + "X", ct, cv)
